@@ -244,22 +244,8 @@ func runC09(c *kit.Ctx) {
 		}
 	}
 
-	// a region is published to the cache only after it was marked unavailable
-	for _, fn := range p.Funcs {
-		if enclosingNamed(fn).Pkg == nil || enclosingNamed(fn).Pkg.Pkg.Path() != kit.Module {
-			continue
-		}
-		for _, pc := range kit.Calls(fn, kit.M("", "*keyRegionCache", "put")) {
-			x := pc.Common().Args[1]
-			good := false
-			for _, mu := range kit.Calls(fn, muName) {
-				if kit.Same(mu.Common().Value, x) && kit.Dominates(mu.(ssa.Instruction), pc.(ssa.Instruction)) {
-					good = true
-				}
-			}
-			c.Check(good, fn, "mark-before-publish", pc.Pos(), "the region is marked unavailable before it becomes visible in the cache", "a freshly looked-up region is put into the cache before it is marked unavailable: a concurrent request finds it available without a client, wins MarkUnavailable and starts a second establisher for the same outage (double release: close of nil channel)")
-		}
-	}
+	markBeforePublish(c)
+	failedRegionAlwaysMarked(c)
 
 	// ---- R4 ---------------------------------------------------------------
 	c.StartRule("R4", "waiters re-validate after wake-up", 2)
@@ -394,6 +380,7 @@ func runC09(c *kit.Ctx) {
 
 	// ---- R5 ---------------------------------------------------------------
 	c.StartRule("R5", "region/cache primitives", 4)
+	failureTransition(c)
 	availF := p.Field("region", "info", "available")
 	infoM := p.Field("region", "info", "m")
 	if availF != nil && infoM != nil {
@@ -634,4 +621,26 @@ func tokenTypestate(c *kit.Ctx, est *ssa.Function, errClosed, override *ssa.Glob
 		}
 	}
 	_ = types.Typ
+}
+
+// markBeforePublish: shared by C09.R3 and C04.R4.
+func markBeforePublish(c *kit.Ctx) {
+	p := c.P
+	muName := hrpcRI + "MarkUnavailable"
+	// a region is published to the cache only after it was marked unavailable
+	for _, fn := range p.Funcs {
+		if enclosingNamed(fn).Pkg == nil || enclosingNamed(fn).Pkg.Pkg.Path() != kit.Module {
+			continue
+		}
+		for _, pc := range kit.Calls(fn, kit.M("", "*keyRegionCache", "put")) {
+			x := pc.Common().Args[1]
+			good := false
+			for _, mu := range kit.Calls(fn, muName) {
+				if kit.Same(mu.Common().Value, x) && kit.Dominates(mu.(ssa.Instruction), pc.(ssa.Instruction)) {
+					good = true
+				}
+			}
+			c.Check(good, fn, "mark-before-publish", pc.Pos(), "the region is marked unavailable before it becomes visible in the cache", "a freshly looked-up region is put into the cache before it is marked unavailable: a concurrent request finds it available without a client, wins MarkUnavailable and starts a second establisher for the same outage (double release: close of nil channel)")
+		}
+	}
 }
